@@ -12,14 +12,14 @@ func init() {
 	prop(&PropertySpec{
 		ID: "C08", Level: "other",
 		Rules: []string{"R08.1", "R08.2", "R08.3", "R08.4", "R18.1"},
-		Explanation: "Decides the shape of FiniteReplayer's (and its sibling's) Put/Replay: R08.1 Put enqueues only after len(topics)!=0 and ensureID succeeded, enqueues ensureID's result with the given topics, returns that same message, and returns (nil, ErrNoTopic)/(nil, err) otherwise (siblings cross-checked); " +
+		Explanation: "Decides the shape of FiniteReplayer's (and its sibling's) Put/Replay: R08.1 Put enqueues only after len(topics)!=0 and ensureID succeeded, enqueues ensureID's result with the given topics, returns that same message, and returns (nil, ErrNoTopic)/(nil, err) otherwise (the ValidReplayer sibling is checked by the same rule under C09); " +
 			"R08.2 ensureID: manual mode returns the argument iff its ID is set, automatic mode rejects a set ID, formats the counter in base 10 onto a Clone, increments the counter by 1 on the success path only, and nothing else writes the counter; " +
 			"R08.3 Replay: a negative start index returns nil before any Send/Flush, Send happens only in the each-callback under topicsIntersect(subscription.Topics, m.topics), a Send error stops the iteration and is returned without Flush, the error-free path ends in Flush whose error is returned; R08.4 queue.each stops at the first false yield; R18.1 the buffer of a FiniteReplayer is allocated once with N slots and never resized.",
 		NotDecided: "FIFO/ring index arithmetic: which elements each(i) visits and what findIDInQueue computes for evicted/absent IDs (only the start-index protocol, R08.5, is decided), that the buffer holds exactly the last N.",
 	})
 	prop(&PropertySpec{
 		ID: "C09", Level: "other",
-		Rules: []string{"R09.1", "R09.2", "R09.3", "R09.4", "R18.4", "R08.1", "R08.3", "R08.4"},
+		Rules: []string{"R09.1", "R09.2", "R09.3", "R09.4", "R18.4", "R09.6", "R09.7", "R08.4", "R08.2"},
 		Explanation: "Decides the expiry discipline of ValidReplayer: R09.1 every replayed Send is dominated by m.exp.After(now) with now the v.Now() result of this Replay call (with R09.2 this fully decides 'never replayed at or after Put time + TTL'); R09.2 the stored expiry is now.Add(v.ttl) with now the v.Now() result of this Put, the same now feeding the GC decision; " +
 			"R09.3 every dequeue is dominated by the not-After edge of the head element's expiry (only expired heads are collected); R09.4 when count==len(buf) a resize to at least twice the length (floored by a positive constant) precedes enqueue; R18.4 the collection loop exits only on empty or unexpired head; plus the shared Put/Replay shape rules.",
 		NotDecided: "that resize/each/findIDInQueue preserve order and content beyond R08.5/R18.5 (index arithmetic), shrink thresholds, behaviour under a decreasing clock.",
@@ -39,9 +39,11 @@ func init() {
 		NotDecided: "nothing of substance for the stated clauses beyond the trusted base (reflection/unsafe by users).",
 	})
 
-	register(&Rule{ID: "R08.1", Title: "Put validates (topics, ensureID) before it stores; returns the stored message", Floor: 8, Run: r08_1})
+	register(&Rule{ID: "R08.1", Title: "FiniteReplayer.Put validates (topics, ensureID) before it stores; returns the stored message", Floor: 5, Run: r08_1})
+	register(&Rule{ID: "R09.6", Title: "ValidReplayer.Put validates (topics, ensureID) before it stores; returns the stored message", Floor: 5, Run: r09_6})
 	register(&Rule{ID: "R08.2", Title: "ensureID modes; decimal consecutive IDs; counter written only by the increment", Floor: 7, Run: r08_2})
-	register(&Rule{ID: "R08.3", Title: "Replay shape: negative index => nothing; guarded Send; error stops; Flush at end", Floor: 10, Run: r08_3})
+	register(&Rule{ID: "R08.3", Title: "FiniteReplayer.Replay shape: negative index => nothing; guarded Send; error stops; Flush at end", Floor: 5, Run: r08_3})
+	register(&Rule{ID: "R09.7", Title: "ValidReplayer.Replay shape: negative index => nothing; guarded Send; error stops; Flush at end", Floor: 5, Run: r09_7})
 	register(&Rule{ID: "R08.4", Title: "queue.each stops at the first false yield", Floor: 2, Run: r08_4})
 	register(&Rule{ID: "R09.1", Title: "replayed Send is guarded by exp.After(now) with this call's now", Floor: 2, Run: r09_1})
 	register(&Rule{ID: "R09.2", Title: "exp = now.Add(ttl) with this Put's now; the same now feeds GC", Floor: 3, Run: r09_2})
@@ -141,12 +143,15 @@ func isLenOf(v ssa.Value, x ssa.Value) bool {
 	return ok && b.Name() == "len" && call.Call.Args[0] == x
 }
 
-func r08_1(c *Ctx) {
+func r08_1(c *Ctx) { putShape(c, "FiniteReplayer") }
+func r09_6(c *Ctx) { putShape(c, "ValidReplayer") }
+
+func putShape(c *Ctx, only string) {
 	P := c.P
 	impls := findReplayers(P)
 	n := 0
 	for _, ri := range impls {
-		if ri.put == nil || !ri.stores {
+		if ri.put == nil || !ri.stores || ri.name != only {
 			continue
 		}
 		n++
@@ -279,29 +284,35 @@ func r08_1(c *Ctx) {
 			}
 		}
 	}
-	if n < 2 {
-		c.undecided("replayer-implementations", "-", "fewer than two storing Replayer implementations found in package sse")
+	if n < 1 {
+		c.undecided("replayer-implementation("+only+")", "-", "the storing Replayer implementation "+only+" was not found in package sse")
 	}
 }
 
 func r08_2(c *Ctx) {
 	P := c.P
 	fn := P.Fn("ensureID")
-	if fn == nil || len(fn.Params) != 2 {
-		c.anchor("ensureID(m, currentID)")
+	if fn == nil {
+		c.anchor("ensureID(m, counter)")
 		return
 	}
-	m, cnt := fn.Params[0], fn.Params[1]
-	name := fnLabel(fn)
-	// the nil-counter edge
-	var nilE *cfgEdge
-	for _, ifi := range ifsIn(fn) {
-		if s, ok := nilEdge(ifi, func(v ssa.Value) bool { return v == ssa.Value(cnt) }); ok {
-			nilE = &cfgEdge{ifi.Block(), s}
+	// parameters by type: the message and the counter (other parameters are tolerated)
+	var m, cnt *ssa.Parameter
+	for _, p := range fn.Params {
+		if typeIs(p.Type(), "sse", "Message") && isPointer(p.Type()) && m == nil {
+			m = p
+		}
+		if p.Type().String() == "*uint64" && cnt == nil {
+			cnt = p
 		}
 	}
-	if nilE == nil {
-		c.bad(name+":mode-split", P.pos(fn.Pos()), "ensureID does not distinguish manual (nil counter) from automatic mode")
+	if m == nil || cnt == nil {
+		c.anchor("ensureID's message and counter parameters")
+		return
+	}
+	name := fnLabel(fn)
+	if len(loopsOf(fn)) > 0 {
+		c.undecided(name+":modes", P.pos(fn.Pos()), "ensureID contains a loop; the decision-table analysis does not apply")
 		return
 	}
 	isSetOfM := func(v ssa.Value) bool {
@@ -309,7 +320,6 @@ func r08_2(c *Ctx) {
 		if !ok {
 			return false
 		}
-		// receiver: m.ID.messageField
 		f, ok := call.Call.Args[0].(*ssa.Field)
 		if !ok {
 			return false
@@ -317,71 +327,131 @@ func r08_2(c *Ctx) {
 		b, ok := isFieldLoad(f.X, "Message", "ID")
 		return ok && b == ssa.Value(m)
 	}
-	var clone *ssa.Call
-	eachInstr(fn, func(in ssa.Instruction) {
-		if call, ok := isModCall(in, "(*Message).Clone"); ok && call.Call.Args[0] == ssa.Value(m) {
-			clone = call
+	isCntNil := func(v ssa.Value) (isNilTest bool, eqMeansNil bool) {
+		b, ok := v.(*ssa.BinOp)
+		if !ok || (b.Op != token.EQL && b.Op != token.NEQ) {
+			return false, false
 		}
-	})
-	for i, ret := range returnsOf(fn) {
-		rn := name + ":return#" + itoa(i)
-		rm, re := sources(ret.Results[0]), sources(ret.Results[1])
-		if len(rm) != 1 || len(re) != 1 {
-			c.undecided(rn, P.ipos(ret), "return operands do not resolve")
+		if (b.X == ssa.Value(cnt) && isNilConst(b.Y)) || (b.Y == ssa.Value(cnt) && isNilConst(b.X)) {
+			return true, b.Op == token.EQL
+		}
+		return false, false
+	}
+	// decision table over (counter is nil?, ID is set?): abstract path interpretation
+	for _, row := range []struct {
+		auto, hasID bool
+		want        string
+	}{
+		{false, false, "reject"}, {false, true, "same"}, {true, true, "reject"}, {true, false, "clone"},
+	} {
+		row := row
+		paths, ok := abstractPaths(fn, 256, func(v ssa.Value) (bool, bool) {
+			if isSetOfM(v) {
+				return row.hasID, true
+			}
+			if is, eqNil := isCntNil(v); is {
+				return (!row.auto) == eqNil, true
+			}
+			return false, false
+		})
+		rn := name + ":mode(" + map[bool]string{true: "automatic", false: "manual"}[row.auto] + "," + map[bool]string{true: "ID set", false: "no ID"}[row.hasID] + ")"
+		if !ok || len(paths) == 0 {
+			c.undecided(rn, P.pos(fn.Pos()), "no feasible path / too many paths under these assumptions")
 			continue
 		}
-		manual := edgeDominates(nilE.From, nilE.Idx, ret.Block())
-		auto := edgeDominates(nilE.From, 1-nilE.Idx, ret.Block())
-		switch {
-		case manual && rm[0] == ssa.Value(m):
-			c.check(isNilConst(re[0]) && guardedByBool(fn, ret.Block(), isSetOfM, true), rn, P.ipos(ret), "manual mode: the argument is returned iff its ID is set", "manual mode returns the message without its ID being set")
-		case manual && isNilConst(rm[0]):
-			c.check(!isNilConst(re[0]) && guardedByBool(fn, ret.Block(), isSetOfM, false), rn, P.ipos(ret), "manual mode: a message without ID is rejected with an error", "manual mode rejects a message although its ID is set, or rejects without error")
-		case auto && isNilConst(rm[0]):
-			c.check(!isNilConst(re[0]) && guardedByBool(fn, ret.Block(), isSetOfM, true), rn, P.ipos(ret), "automatic mode: a message that already has an ID is rejected", "automatic mode rejects a message without ID, or rejects without error")
-		case auto && clone != nil && rm[0] == ssa.Value(clone):
-			c.check(isNilConst(re[0]) && guardedByBool(fn, ret.Block(), isSetOfM, false), rn, P.ipos(ret), "automatic mode: the clone is returned for a message without ID", "automatic mode returns the clone although the ID was set")
-		default:
-			c.undecided(rn, P.ipos(ret), "unrecognised return of ensureID: "+describe(rm[0]))
+		bad := ""
+		for _, p := range paths {
+			rm := p.St.resolve(p.Ret.Results[0])
+			re := p.St.resolve(p.Ret.Results[1])
+			rms, res := sources(rm), sources(re)
+			if len(rms) == 1 {
+				rm = rms[0]
+			}
+			if len(res) == 1 {
+				re = res[0]
+			}
+			var clone *ssa.Call
+			var incs []*ssa.Store
+			var idStore *ssa.Store
+			var fmtCall *ssa.Call
+			for _, in := range p.Instrs {
+				if call, ok := isModCall(in, "(*Message).Clone"); ok && call.Call.Args[0] == ssa.Value(m) {
+					clone = call
+				}
+				if call, ok := isStaticCall(in, "strconv.FormatUint"); ok {
+					fmtCall = call
+				}
+				if st, ok := in.(*ssa.Store); ok {
+					if st.Addr == ssa.Value(cnt) {
+						incs = append(incs, st)
+					}
+					if _, ok := isFieldSel(st.Addr, "Message", "ID"); ok {
+						idStore = st
+					}
+				}
+			}
+			switch row.want {
+			case "reject":
+				if !isNilConst(rm) || isNilConst(re) {
+					bad = "expected (nil, error)"
+				}
+				if len(incs) > 0 {
+					bad = "a rejected message consumes an automatic ID (the counter is incremented on an error path)"
+				}
+			case "same":
+				if rm != ssa.Value(m) || !isNilConst(re) {
+					bad = "expected the given message and a nil error"
+				}
+				if idStore != nil || len(incs) > 0 {
+					bad = "manual mode must not touch the message or the counter"
+				}
+			case "clone":
+				switch {
+				case clone == nil || rm != ssa.Value(clone) || !isNilConst(re):
+					bad = "expected a Clone of the message and a nil error"
+				case idStore == nil:
+					bad = "the clone gets no ID"
+				default:
+					if b, ok := isFieldSel(idStore.Addr, "Message", "ID"); !ok || b != ssa.Value(clone) {
+						bad = "the generated ID is not stored into the clone"
+					}
+					// ID(FormatUint(*counter, 10))
+					okFmt := false
+					if fmtCall != nil {
+						a, isLoad := loadedFrom(fmtCall.Call.Args[0])
+						base, isK := constInt(fmtCall.Call.Args[1])
+						okFmt = isLoad && a == ssa.Value(cnt) && isK && base == 10 && instrPrecedes(p.Instrs, fmtCall, firstOfStores(incs))
+						if call, ok := isModCall(idStore.Val, "ID"); !ok || call.Call.Args[0] != ssa.Value(fmtCall) {
+							okFmt = false
+						}
+					}
+					if !okFmt {
+						bad = "the generated ID is not ID(strconv.FormatUint(*counter, 10)) taken before the increment"
+					}
+					if len(incs) != 1 {
+						bad = "the counter is not incremented exactly once on the success path"
+					} else {
+						bo, ok := incs[0].Val.(*ssa.BinOp)
+						good := ok && bo.Op == token.ADD
+						if good {
+							a, isLoad := loadedFrom(bo.X)
+							k, isK := constInt(bo.Y)
+							good = isLoad && a == ssa.Value(cnt) && isK && k == 1
+						}
+						if !good {
+							bad = "the counter is not incremented by exactly 1"
+						}
+					}
+				}
+			}
+		}
+		if bad != "" {
+			c.bad(rn, P.pos(fn.Pos()), "ensureID does not implement this row of its decision table: "+bad+" (IDs would not be consecutive decimal numbers from 0 in Put order / messages would be accepted or rejected wrongly)")
+		} else {
+			c.ok(rn, P.pos(fn.Pos()), "outcome: "+row.want)
 		}
 	}
-	// ID formatting and increment
-	var fmtCall *ssa.Call
-	var incs []*ssa.Store
-	eachInstr(fn, func(in ssa.Instruction) {
-		if call, ok := isStaticCall(in, "strconv.FormatUint"); ok {
-			fmtCall = call
-		}
-		if st, ok := in.(*ssa.Store); ok && st.Addr == ssa.Value(cnt) {
-			incs = append(incs, st)
-		}
-	})
-	fmtOK := false
-	if fmtCall != nil {
-		a, isLoad := loadedFrom(fmtCall.Call.Args[0])
-		base, isK := constInt(fmtCall.Call.Args[1])
-		fmtOK = isLoad && a == ssa.Value(cnt) && isK && base == 10
-	}
-	c.check(fmtOK, name+":decimal-id", P.pos(fn.Pos()), "the automatic ID is strconv.FormatUint(*counter, 10)", "the automatic ID is not the counter formatted in base 10")
-	incOK := len(incs) == 1
-	if incOK {
-		b, ok := incs[0].Val.(*ssa.BinOp)
-		incOK = ok && b.Op == token.ADD
-		if incOK {
-			a, isLoad := loadedFrom(b.X)
-			k, isK := constInt(b.Y)
-			incOK = isLoad && a == ssa.Value(cnt) && isK && k == 1
-		}
-		// on the success path only: dominated by auto edge and IsSet false edge; after the format
-		if incOK {
-			incOK = edgeDominates(nilE.From, 1-nilE.Idx, incs[0].Block()) && guardedByBool(fn, incs[0].Block(), isSetOfM, false) &&
-				fmtCall != nil && instrDominates(fmtCall, incs[0])
-		}
-	}
-	c.check(incOK, name+":increment", P.pos(fn.Pos()), "the counter is incremented by 1, once, on the success path only, after the ID was formatted",
-		"the counter is not incremented by exactly 1 on the success path only (after formatting): IDs are not consecutive from 0 in Put order, or a rejected Put consumes an ID")
 	// counter writers in the whole package
-	nW := 0
 	for _, f := range P.Funcs {
 		if !inSSEPackage(f) {
 			continue
@@ -395,7 +465,6 @@ func r08_2(c *Ctx) {
 			if !ok || pt.Elem().String() != "uint64" {
 				return
 			}
-			nW++
 			c.check(f == fn, fnLabel(f)+":counter-write", P.ipos(st), "the only write through a *uint64 is ensureID's increment", "the ID counter can be written outside ensureID")
 		})
 	}
@@ -410,6 +479,30 @@ func r08_2(c *Ctx) {
 			c.check(ok && al.Heap, fnLabel(a.Fn)+":counter-init("+owner+")", P.ipos(st), "the counter starts as new(uint64) (0)", "the counter is not initialised with new(uint64): automatic IDs do not start at 0")
 		}
 	}
+}
+
+func firstOfStores(s []*ssa.Store) ssa.Instruction {
+	if len(s) == 0 {
+		return nil
+	}
+	return s[0]
+}
+
+// instrPrecedes: a occurs before b in the executed instruction sequence (b may be nil).
+func instrPrecedes(seq []ssa.Instruction, a, b ssa.Instruction) bool {
+	ia, ib := -1, -1
+	for i, in := range seq {
+		if in == a && ia < 0 {
+			ia = i
+		}
+		if b != nil && in == b && ib < 0 {
+			ib = i
+		}
+	}
+	if ia < 0 {
+		return false
+	}
+	return b == nil || ib < 0 || ia < ib
 }
 
 // replayParts locates roles in a Replay implementation.
@@ -476,11 +569,14 @@ func findReplayParts(P *Program, fn *ssa.Function) *replayParts {
 
 func strings_HasPrefix(s, p string) bool { return len(s) >= len(p) && s[:len(p)] == p }
 
-func r08_3(c *Ctx) {
+func r08_3(c *Ctx) { replayShape(c, "FiniteReplayer") }
+func r09_7(c *Ctx) { replayShape(c, "ValidReplayer") }
+
+func replayShape(c *Ctx, only string) {
 	P := c.P
 	n := 0
 	for _, ri := range findReplayers(P) {
-		if ri.replay == nil || !ri.stores {
+		if ri.replay == nil || !ri.stores || ri.name != only {
 			continue
 		}
 		n++
@@ -656,8 +752,8 @@ func r08_3(c *Ctx) {
 		}
 		c.check(tailOK, name+":tail", P.pos(fn.Pos()), "after the iteration a Send error is returned without Flush, otherwise the client is flushed and Flush's error returned", "after the iteration Replay does not (return the Send error without flushing | flush and return Flush's error)")
 	}
-	if n < 2 {
-		c.undecided("replayer-implementations", "-", "fewer than two storing Replayer implementations found")
+	if n < 1 {
+		c.undecided("replayer-implementation("+only+")", "-", "the storing Replayer implementation "+only+" was not found")
 	}
 }
 
@@ -1663,7 +1759,7 @@ func r19_3(c *Ctx) {
 // buf[:tail]. Other shapes are not decided (ring arithmetic is outside this family).
 func init() {
 	register(&Rule{ID: "R18.5", Title: "resize linearises a wrapped ring oldest-segment first (opportunistic)", Floor: 1, Run: r18_5})
-	for _, id := range []string{"C09", "C18", "C04"} {
+	for _, id := range []string{"C09", "C04"} {
 		if p := properties[id]; p != nil {
 			p.Rules = append(p.Rules, "R18.5")
 			p.Explanation += " R18.5 (opportunistic) when resize copies a wrapped ring in two pieces, the piece placed first is buf[head:] (older events) and the second buf[:tail]; other shapes of resize are reported as not decided, not as violations."
@@ -1978,7 +2074,7 @@ func r08_5(c *Ctx) {
 // when a collection has just run; otherwise frequent Puts would postpone collection forever.
 func init() {
 	register(&Rule{ID: "R18.6", Title: "lastGC advances only on initialisation or right after a collection", Floor: 2, Run: r18_6})
-	for _, id := range []string{"C18", "C09"} {
+	for _, id := range []string{"C18"} {
 		if p := properties[id]; p != nil {
 			p.Rules = append(p.Rules, "R18.6")
 			p.Explanation += " R18.6 ValidReplayer.lastGC is assigned only this Put's now, and only when it was zero or right after doGC ran under shouldGC (frequent Puts must not postpone the collection forever); shouldGC compares now-lastGC with GCInterval."
@@ -2067,7 +2163,7 @@ func r18_6(c *Ctx) {
 // oldest element of a full ring. Moving it otherwise drops buffered events.
 func init() {
 	register(&Rule{ID: "R18.7", Title: "enqueue moves head only on the overwrite path (ring full)", Floor: 1, Run: r18_7})
-	for _, id := range []string{"C08", "C09", "C04"} {
+	for _, id := range []string{"C09", "C04"} {
 		if p := properties[id]; p != nil {
 			p.Rules = append(p.Rules, "R18.7")
 			p.Explanation += " R18.7 enqueue writes q.head only on paths on which count == len(buf) held (the element it overwrote was the oldest); on every other path the read index is untouched, so no buffered event is dropped by a Put (path enumeration with the boolean flag resolved per path)."
